@@ -32,7 +32,7 @@ func reg(c PropCfg) PropCfg { cfgs[c.ID] = c; return c }
 
 var cfgC02 = reg(PropCfg{
 	ID: "C02",
-	Profile: &Profile{PReimport: 3, Weights: mixedWeights(), PBulk: 14, MinBlocks: 8, MaxBlocks: 40, MaxTxs: 4, MaxOps: 3, PUpper: 5, PActor: 8, PNamed: 2, PFault: 4, PExec: 8,
+	Profile: &Profile{PGovRaise: 15, PQuorumConflict: 10, PReimport: 3, Weights: mixedWeights(), PBulk: 14, MinBlocks: 8, MaxBlocks: 40, MaxTxs: 4, MaxOps: 3, PUpper: 5, PActor: 8, PNamed: 2, PFault: 4, PExec: 8,
 		PGovParams: 6, PBadRef: 5, Vesting: true, TinyLimits: true, ValidParams: true, LongTime: true, EntDenomChange: true},
 	Rule: "history (generated genesis + blocks of signed txs) with >=1 block in which an order completes and >=1 successful non-enterprise tx in a block without completion; distinct by scenario hash",
 	NonTrivial: func(w *World) bool {
@@ -44,7 +44,7 @@ var cfgC02 = reg(PropCfg{
 
 var cfgC03 = reg(PropCfg{
 	ID: "C03",
-	Profile: &Profile{PReimport: 3, Weights: entWeights(), PBulk: 12, MinBlocks: 5, MaxBlocks: 35, MaxTxs: 4, MaxOps: 2, PUpper: 15, PActor: 8, PNamed: 1, PFault: 2, PExec: 6,
+	Profile: &Profile{PGovRaise: 10, PQuorumConflict: 15, PReimport: 3, Weights: entWeights(), PBulk: 12, MinBlocks: 5, MaxBlocks: 35, MaxTxs: 4, MaxOps: 2, PUpper: 15, PActor: 8, PNamed: 1, PFault: 2, PExec: 6,
 		PGovParams: 8, PBadRef: 4, ValidParams: true},
 	Rule: "history in which >=1 order reaches completed and >=1 reaches rejected, or parameters change while an order is raised/accepted",
 	NonTrivial: func(w *World) bool {
@@ -183,7 +183,7 @@ func TestC17(t *testing.T) { RunProperty(t, cfgC17) }
 var cfgC14 = reg(PropCfg{
 	ID: "C14",
 	Profile: &Profile{PReimport: 3, Weights: mixedWeights(), MinBlocks: 8, MaxBlocks: 40, MaxTxs: 4, MaxOps: 4, PUpper: 6, PActor: 8, PNamed: 2, PFault: 4, PExec: 8,
-		PGovParams: 14, GovKinds: []string{ParamsEnt, ParamsEnt, ParamsWrk, ParamsBcn, ParamsStr}, PBadRef: 5, Vesting: true, TinyLimits: true, BigAmounts: true, EntDenomChange: true, LongTime: true, GasSweep: true, MultiPct: 35, PGranter: 10, PFeePayer: 6, PExecTail: 8},
+		PGovParams: 14, PGovRaise: 20, PQuorumConflict: 10, GovKinds: []string{ParamsEnt, ParamsEnt, ParamsWrk, ParamsBcn, ParamsStr}, PBadRef: 5, Vesting: true, TinyLimits: true, BigAmounts: true, EntDenomChange: true, LongTime: true, GasSweep: true, MultiPct: 35, PGranter: 10, PFeePayer: 6, PExecTail: 8},
 	Rule: "history with a failed multi-message tx whose first message was viable alone, or enterprise parameters changed while an order was queued",
 	NonTrivial: func(w *World) bool {
 		return w.Classes["c14.failed-multi-message-tx-first-op-viable"] > 0 || w.Classes["c14.ent-params-changed-with-order-queued"] > 0
@@ -208,7 +208,7 @@ var cfgC13 = reg(PropCfg{
 func TestC13(t *testing.T) { RunProperty(t, cfgC13) }
 var cfgC16 = reg(PropCfg{
 	ID: "C16",
-	Profile: &Profile{PReimport: 3, Weights: mixedWeights(), MinBlocks: 10, MaxBlocks: 40, MaxTxs: 3, MaxOps: 2, PUpper: 4, PActor: 4, PNamed: 1, PFault: 1, PExec: 4,
+	Profile: &Profile{PQuorumConflict: 15, PReimport: 3, Weights: mixedWeights(), MinBlocks: 10, MaxBlocks: 40, MaxTxs: 3, MaxOps: 2, PUpper: 4, PActor: 4, PNamed: 1, PFault: 1, PExec: 4,
 		PGovParams: 40, PBadRef: 3, TinyLimits: true, DupSigners: false},
 	Oracles: []string{"C16", "C03", "C08", "C10"},
 	Alias:   map[string]string{"C03": ParamsEnt, "C08": ParamsWrk, "C10": ParamsStr},
@@ -252,7 +252,7 @@ func c01Weights() map[string]int {
 var cfgC01 = reg(PropCfg{
 	ID: "C01",
 	Profile: &Profile{Weights: c01Weights(), SlotRules: []int{0, 0, 0, 1, 2, 2, 2, 3, 5}, MinBlocks: 3, MaxBlocks: 22, MaxTxs: 5, MaxOps: 3, PUpper: 6, PActor: 8, PNamed: 2, PFault: 5, PExec: 8,
-		PGovParams: 8, PBadRef: 5, Vesting: true, TinyLimits: true, BigAmounts: true, LongTime: true, GasSweep: true, MultiPct: 25, PSameKind: 35, PCheck: 8, Crashes: true, EntDenomChange: false, PMultiTarget: 40, PFeePayer: 4, PGranter: 4, PForward: 40, PRetry: 3, PExecTail: 8},
+		PGovParams: 8, PBadRef: 5, Vesting: true, TinyLimits: true, BigAmounts: true, LongTime: true, GasSweep: true, MultiPct: 25, PSameKind: 35, PCheck: 8, Crashes: true, EntDenomChange: false, PMultiTarget: 40, EntSteerBoth: true, PQuorumConflict: 30, GovKinds: []string{ParamsEnt, ParamsEnt, ParamsEnt, ParamsWrk, ParamsBcn, ParamsStr}, PFeePayer: 4, PGranter: 4, PForward: 40, PRetry: 3, PExecTail: 8},
 	Rule: "history with >=1 successful custom-module tx and >=1 failed tx, executed on a second node that differs in node-local options and/or is restarted inside a block that already delivered a tx",
 	PerCase: c01PerCase,
 	MinClasses: map[string]int{"c01.restarts": 50, "c01.restarts-after-tx": 10, "c01.ok-custom-tx": 300, "c01.failed-tx": 200},
